@@ -126,7 +126,7 @@ def call_index(fn, names):
 
 
 class Interp:
-    DEFAULT_PART = ("$ef", "$work")
+    DEFAULT_PART = ("$ef", "$work", "$last")
 
     def __init__(self, fn, entry=None, partvars=(), closures=None,
                  finalize_havoc=True, resolver=None, hooks=None,
@@ -614,6 +614,8 @@ class Interp:
                         st.add_ineq(d - ONE)
                     elif st.entails_ineq(-d):
                         st.add_ineq(-d - ONE)
+                    else:
+                        st.add_neq(d)
 
     # ------------------------------------------------------------ stores
     def set_loc(self, sym, val, st):
@@ -647,6 +649,7 @@ class Interp:
         if s.startswith("self."):
             self.attr_writes.add(s[5:])
             st.may["$stores"] = st.may.get("$stores", frozenset()) | {s[5:]}
+            st.may["$seg"] = st.may.get("$seg", frozenset()) | {s[5:]}
         self.containers.discard(s) if isinstance(val, (Lin, Tok)) else None
         self.set_loc(s, val, st)
 
@@ -720,6 +723,9 @@ class Interp:
                     else:
                         self.container_arity.pop(c, None)
                         self.set_loc(f"top({c})", v, st)
+                        self.set_loc(f"seed({c})", v, st)
+                else:
+                    st.forget_all(f"seed({c})")
                 if self.record:
                     self.cops.append((s, c, "init", elts, st.copy()))
                 return [st], [], []
@@ -735,6 +741,7 @@ class Interp:
             if sym and sym.startswith("self."):
                 self.attr_writes.add(sym[5:])
                 st.may["$stores"] = st.may.get("$stores", frozenset()) | {sym[5:]}
+                st.may["$seg"] = st.may.get("$seg", frozenset()) | {sym[5:]}
             if sym and isinstance(v, Lin) and isinstance(s.op, (ast.Add, ast.Sub)):
                 cur = Lin.sym(sym)
                 st.assign(sym, cur + v if isinstance(s.op, ast.Add) else cur - v)
@@ -855,7 +862,7 @@ class Interp:
         st.assign("n@prev", Lin.sym("self._n"))
         st.assign("r@prev", Lin.sym("self._r"))
         st.enum_set("$last", rec.yid)
-        work = st.enum_get("$work")
+        st.may["$seg"] = frozenset()
         if kind == "Forward":
             storage, wadj = rec.arg(4, "storage"), rec.arg(3, "write_adj_deps")
             if storage == Tok("StorageType.WORK") and wadj == TRUE:
@@ -871,7 +878,11 @@ class Interp:
             to = rec.arg(2, "to_storage")
             if to == Tok("StorageType.WORK"):
                 hook = self.hooks.get("load_kind")
-                st.enum_set("$work", hook(self, rec, st) if hook else "I")
+                k = hook(self, rec, st) if hook else "I"
+                if k == "?":
+                    st.enums.pop("$work", None)
+                else:
+                    st.enum_set("$work", k)
         elif kind == "Reverse":
             clear = rec.arg(2, "clear_adj_deps")
             if clear == TRUE:
